@@ -57,9 +57,11 @@ def emit_fail_if_eq(a, k, ctr=0x1C0, from_storage=False):
 
 
 class Scenario:
-    def __init__(self, ch):
+    def __init__(self, ch, force_kind=None):
         self.ch = ch
         self.kind = ch.choose(KINDS, "s.kind")
+        if force_kind:
+            self.kind = force_kind
         self.loop = ch.choose([2, 1, 3, 4], "s.loop")
         self.mask = ch.choose([7, 3, 15], "s.mask")
         self.k = ch.int(0, self.mask, "s.k")
